@@ -340,6 +340,45 @@ func (r *c16Run) apply(i int, ev c16Ev, known map[*kPeer]bool) {
 			if !res.done || res.ok {
 				r.fail("timeout-result", "%s: silent backend but request returned done=%v ok=%v", step, res.done, res.ok)
 			}
+		case "silent-after-login":
+			b.backendExpectLogin(r.protocol)
+			b.backendLoginSuccess("Switcher")
+			synctest.Wait()
+			if kitConfigPhase(r.protocol) {
+				r.ackStartUpdate()
+				b.backendFinishConfig()
+				synctest.Wait()
+				r.cl.take()
+				r.cl.clientFinishConfig()
+				synctest.Wait()
+				expectStay = false // the configuration-phase flow has already left the previous server
+				r.current = "?"
+			}
+			b.take()
+			time.Sleep(6 * time.Second) // the request deadline passes while the backend stays silent before JoinGame
+			r.settle()
+			r.resolveFallbacks(known)
+			r.settle()
+			if !res.done || res.ok {
+				r.fail("timeout-after-login-result", "%s: backend silent after login success but request returned done=%v ok=%v", step, res.done, res.ok)
+			}
+			// the abandoned attempt must be torn down: its connection closed, and a JoinGame that arrives late must not move the player
+			if !b.conn.ClosedByProxy() {
+				r.fail("timed-out-attempt-conn-open", "%s: the attempt timed out but its backend connection %s is still open", step, b.name)
+			}
+			before := ""
+			if cs := r.player.CurrentServer(); cs != nil {
+				before = cs.Server().ServerInfo().Name()
+			}
+			b.backendJoinGame(77)
+			r.settle()
+			after := ""
+			if cs := r.player.CurrentServer(); cs != nil {
+				after = cs.Server().ServerInfo().Name()
+			}
+			if before != after && !r.cl.conn.ClosedByProxy() {
+				r.fail("late-joingame-moved-player", "%s: a JoinGame from the timed-out attempt changed the current server from %q to %q", step, before, after)
+			}
 		case "silent-dial":
 			time.Sleep(6 * time.Second)
 			r.settle()
@@ -423,7 +462,7 @@ func TestVerif(t *testing.T) {
 		}
 		var evs []c16Ev
 		for _, tgt := range []string{"b", "c", "a"} {
-			for _, ans := range []string{"accept", "refuse", "disc-login", "close-login", "disc-after-login", "silent", "silent-dial"} {
+			for _, ans := range []string{"accept", "refuse", "disc-login", "close-login", "disc-after-login", "silent", "silent-after-login", "silent-dial"} {
 				evs = append(evs, c16Ev{Kind: "connect", Target: tgt, Answer: ans})
 			}
 		}
